@@ -299,6 +299,13 @@ func (c01) RunCase(c *core.Ctx) {
 			return
 		}
 	}
+	if c.Case%100 == 43 {
+		c.Eval(2)
+		if _, problem := dPreprocessAbsent(); problem != "" {
+			c.Violation("success-but-required-absent|Parse", map[string]any{"schema": "Preprocess(func(n int) string, String().Required().Min(5)) as a struct field and as a slice element", "observed": problem})
+			return
+		}
+	}
 	if c.Case%4 == 3 {
 		c01Fronts(c)
 		return
